@@ -103,9 +103,18 @@ def norm(node):
     """Normalised text of a node (keys for constructs; never compared with a
     frozen source fragment)."""
     try:
-        return ast.unparse(node)
+        return node._norm
+    except AttributeError:
+        pass
+    try:
+        t = ast.unparse(node)
     except Exception:  # pragma: no cover
-        return ast.dump(node)
+        t = ast.dump(node)
+    try:
+        node._norm = t
+    except Exception:  # pragma: no cover
+        pass
+    return t
 
 
 class ClassInfo:
